@@ -68,9 +68,11 @@ def static_family(tier):
         yield from _fam("s1b:1pos,n<=3,L=3", H(1, 3), ["x"], (0,), 3, 3, ("plain", "cn"), None)
         yield from _fam("s2:2pos,n<=2,L=2", H(1, 2), ["xy"], (0,), 2, 2, ("plain", "cn"), 3)
     else:
-        yield from _fam("S1:1pos,n<=4,L<=3,prio", H(1, 4), ["x"], (0, 1), 2, 3, ("plain", "cn", "next", "walker"), None)
-        yield from _fam("S2:2pos,n<=2,L<=3", H(1, 2), ["xy"], (0, 1), 2, 3, ("plain", "cn"), 4)
-        yield from _fam("S3:2pos,n=3,L=2", H(3, 3), ["xy"], (0,), 2, 2, ("plain", "cn"), 3)
+        yield from _fam("S1:1pos,n<=4,L<=3,prio", H(1, 4), ["x"], (0, 1), 2, 3, ("plain", "cn", "next"), None)
+        yield from _fam("S1w:1pos,n<=3,L<=3,prio,walker", H(1, 3), ["x"], (0, 1), 2, 3, ("walker",), None)
+        yield from _fam("S2:2pos,n<=2,L=2,prio", H(1, 2), ["xy"], (0, 1), 2, 2, ("plain", "cn"), 4)
+        yield from _fam("S2b:2pos,n<=2,L=3", H(1, 2), ["xy"], (0,), 3, 3, ("plain", "cn"), 3)
+        yield from _fam("S3:2pos,n=3,L=2", H(3, 3), ["xy"], (0,), 2, 2, ("plain", "cn"), 2)
 
 
 def _fam(name, hiers, shapes, prios, lo, hi, variants, depth):
